@@ -85,6 +85,14 @@ def _bad_number(b):
     return isinstance(b, float) and (math.isinf(b) or math.isnan(b))
 
 
+def _fwd_of(n, m):
+    """reaction id whose reverse variable is named n (or n itself)"""
+    for r in m.reactions:
+        if n == r.id or n == _rev_id(r.id):
+            return r.id
+    return n
+
+
 def lp_equiv(E, m, S, label="lp=fba"):
     """the recorded LP is exactly the split encoding of the model's flux-balance problem"""
     from cobra.util.solver import linear_reaction_coefficients
@@ -157,10 +165,39 @@ def lp_equiv(E, m, S, label="lp=fba"):
     for rid, c in rep.items():
         want[rid] = c
         want[_rev_id(rid)] = -c
+    asym = getattr(S, "asym_ok", set())
     for n in set(want) | set(O["coefs"]):
         if n in S.user_vars and n not in want:
             continue
+        if n in asym or (n in V and _fwd_of(n, m) in asym):
+            continue        # handled per reaction below
         conds.append((E.eq(O["coefs"].get(n, 0), want.get(n, 0)), "objective coefficient of %s" % n))
+    for r in m.reactions:
+        if r.id not in asym:
+            continue
+        # the user set an objective on this reaction's variables that is not c*(forward - reverse): the documented
+        # accessor reports c when the pair is exactly (c, -c) with c != 0 and nothing otherwise
+        a, b = lift(O["coefs"].get(r.id, 0)), lift(O["coefs"].get(_rev_id(r.id), 0))
+        if r.id in rep:
+            conds.append((E.all_of([E.eq(a, rep[r.id]), E.eq(b, -lift(rep[r.id]))]), "objective coefficients of %s" % r.id))
+        else:
+            conds.append((E.neg(E.all_of([E.neg(E.eq(a, 0)), E.eq(a, -b)])), "unreported symmetric objective coefficient of %s" % r.id))
+    # the objective as the user reads it (model.objective.expression) is the row the solver optimises, and it
+    # mentions no variable that is not in the problem
+    try:
+        shown = {}
+        for t, a in m.solver.objective.expression.as_coefficients_dict().items():
+            if t == 1:
+                continue
+            shown[getattr(t, "name", str(t))] = a
+        ghosts = sorted(n for n in shown if n not in V)
+        if ghosts:
+            problems.append("objective expression mentions variables that are not in the problem: %s" % ghosts)
+        for n in set(shown) | set(O["coefs"]):
+            if n in V:
+                conds.append((E.eq(shown.get(n, 0), O["coefs"].get(n, 0)), "objective expression term %s vs solver row" % n))
+    except Exception as e:
+        problems.append("reading model.objective.expression raised %s" % type(e).__name__)
     for r in m.reactions:
         try:
             oc = r.objective_coefficient
@@ -347,7 +384,7 @@ def op_gene_knock_out(E, m, S):
 
 def op_objective(E, m, S):
     r = _rxn(E, m, pool=("R1", "R2", "DM_B"))
-    how = E.pick(S.tag("objective"), ["reaction", "id", "index", "dict", "Objective", "bad-id"])
+    how = E.pick(S.tag("objective"), ["reaction", "id", "index", "dict", "Objective", "forward-only", "bad-id"])
     if how == "reaction":
         _try(S, "objective=reaction", lambda: setattr(m, "objective", r), ref=IDENT, r=r.id)
     elif how == "id":
@@ -361,6 +398,11 @@ def op_objective(E, m, S):
     elif how == "Objective":
         _try(S, "objective=Objective", lambda: setattr(m, "objective", m.problem.Objective(
             2.0 * r.flux_expression, direction="min")), r=r.id, ref=IDENT)
+    elif how == "forward-only":
+        # an objective that is not c*(forward - reverse): only the forward variable
+        S.asym_ok = getattr(S, "asym_ok", set()) | {r.id}
+        _try(S, "objective=forward-only", lambda: setattr(m, "objective", m.problem.Objective(
+            1.0 * r.forward_variable, direction="max")), r=r.id, ref=IDENT)
     else:
         _try(S, "objective=bad-id", lambda: setattr(m, "objective", "nope"), ref=IDENT)
 
@@ -636,6 +678,8 @@ def op_rename_reaction(E, m, S):
     r = _rxn(E, m, pool=("R1", "DM_B"))
     to = E.pick(S.tag("to"), ["new", "existing", "non-string"])
     val = {"new": S.tag("REN"), "existing": m.reactions[0].id, "non-string": 7}[to]
+    if r.id in getattr(S, "asym_ok", ()) and isinstance(val, str):
+        S.asym_ok = S.asym_ok | {val}
     _try(S, "reaction.id=", lambda: setattr(r, "id", val), r=r.id, to=to,
          ref=(lambda R, i=r.id: R.rename_reaction(i, val)) if to == "new" else IDENT)
 
